@@ -374,6 +374,16 @@ func (c *core) fastForward(block *hg.Block, frame *hg.Frame) error {
 		return err
 	}
 
+	// The signatures are counted against the peer-set shipped in the response
+	// itself. At least one valid signature must come from a peer this node
+	// already has a reason to trust (its configured peers, the genesis
+	// validators, or the validators it derived so far); otherwise a single
+	// responding peer could make it adopt a self-made validator-set signed by
+	// itself.
+	if !c.signedByKnownPeer(block, peerSet) {
+		return fmt.Errorf("Block is not signed by any known peer")
+	}
+
 	// Check Frame Hash
 	frameHash, err := frame.Hash()
 	if err != nil {
@@ -399,6 +409,28 @@ func (c *core) fastForward(block *hg.Block, frame *hg.Frame) error {
 	c.validators = peers.NewPeerSet(frame.Peers)
 
 	return nil
+}
+
+// signedByKnownPeer returns true if the block carries a valid signature from a
+// member of peerSet that also belongs to the node's configured peers, genesis
+// validators or current validators.
+func (c *core) signedByKnownPeer(block *hg.Block, peerSet *peers.PeerSet) bool {
+	for _, s := range block.GetSignatures() {
+		validatorHex := s.ValidatorHex()
+		if _, ok := peerSet.ByPubKey[validatorHex]; !ok {
+			continue
+		}
+		_, inPeers := c.peers.ByPubKey[validatorHex]
+		_, inGenesis := c.genesisPeers.ByPubKey[validatorHex]
+		_, inValidators := c.validators.ByPubKey[validatorHex]
+		if !(inPeers || inGenesis || inValidators) {
+			continue
+		}
+		if ok, _ := block.Verify(s); ok {
+			return true
+		}
+	}
+	return false
 }
 
 // getAnchorBlockWithFrame returns GetAnchorBlockWithFrame from the hashgraph
